@@ -22,7 +22,7 @@ ANGLES = {
     (2,): {'s0': 0.0, 's1': math.pi / 8, 's2': -7.0, 'v1': [math.pi / 3, -math.pi / 8], 'v2': [2.5, 1e-3], 'one': [math.pi / 2]},
     (2, 3): {'s1': math.pi / 3, 'r3': [0.3, -1.1, 2.5], 'c21': [[0.3], [-7.0]], 'm23': [[0.0, math.pi / 8, 1e-3], [math.pi / 2, -0.4, 2.5]], 'r13': [[1.0, 2.0, -3.0]]},
 }
-SYMS = {'R1': ('S', 'S'), 'R2': ('S', 'S'), 'R1t': ('S', 'S'), 'R2t': ('S', 'S'), 'H': ('S', 'S'), 'Pol': ('S', 'D')}
+SYMS = {'Rn': ('S', 'S'), 'R1': ('S', 'S'), 'R2': ('S', 'S'), 'R1t': ('S', 'S'), 'R2t': ('S', 'S'), 'H': ('S', 'S'), 'Pol': ('S', 'D')}
 
 
 def chains(maxlen):
@@ -181,8 +181,12 @@ def run(phase, cases, ctx):
                 R1, R2 = QURotationOperator(a1, S), QURotationOperator(a2, S)
                 f1 = np.broadcast_to(np.asarray(a1, float), shape)
                 f2 = np.broadcast_to(np.asarray(a2, float), shape)
-                ops = {'R1': R1, 'R2': R2, 'R1t': R1.T, 'R2t': R2.T, 'H': HWPOperator(S), 'Pol': LinearPolarizerOperator(S)}
-                refs = {'R1': stokes_matrix(kind, shape, 'rot', f1), 'R2': stokes_matrix(kind, shape, 'rot', f2),
+                an = np.asarray(ANGLES[shape][case['a2']], dtype=np.dtype(D)) * 0.5 + 0.2   # NumPy storage (mutable): must never be updated in place
+                an0 = an.copy()
+                fn = np.broadcast_to(an0.astype(float), shape)
+                Rn = QURotationOperator(an, S)
+                ops = {'Rn': Rn, 'R1': R1, 'R2': R2, 'R1t': R1.T, 'R2t': R2.T, 'H': HWPOperator(S), 'Pol': LinearPolarizerOperator(S)}
+                refs = {'Rn': stokes_matrix(kind, shape, 'rot', fn), 'R1': stokes_matrix(kind, shape, 'rot', f1), 'R2': stokes_matrix(kind, shape, 'rot', f2),
                         'R1t': stokes_matrix(kind, shape, 'rot_t', f1), 'R2t': stokes_matrix(kind, shape, 'rot_t', f2),
                         'H': stokes_matrix(kind, shape, 'hwp', f1), 'Pol': pol_matrix(kind, shape)}
                 ref = None
@@ -193,6 +197,9 @@ def run(phase, cases, ctx):
                 with xstate.Timeout(60):
                     red = comp.reduce()
                 cmp(case, 'chain reduced', red, ref)
+                cmp(case, 'chain again after reduce()', comp, ref)   # reduce() must not have modified the operands
+                if not np.array_equal(an, an0):
+                    violations.append({'kind': 'operand-mutated', 'case': case, 'detail': f'the angle array passed by the caller was changed in place: {an0} -> {an}'})
                 nops = len(red.operands) if isinstance(red, CompositionOperator) else 1
                 if nops < len(case['chain']):
                     nontrivial.add(json.dumps(case))
